@@ -72,10 +72,72 @@ def run_harnesses(prop, spec, tier, build=True):
             "kani_wall_s": meta["wall_s"]}
 
 
+def run_mir_pagination(prop):
+    """Engine M (C35): symbolic execution of apply_pagination's MIR, for every length/limit/offset."""
+    import sys
+    sys.path.insert(0, os.path.join(vc.VERIF, "mir"))
+    sys.path.insert(0, os.path.join(vc.VERIF, "p"))
+    import mirsym
+    import pengine as P
+    out = {"violations": [], "known": [], "inconclusive": [], "evidence": {}}
+    try:
+        path, secs = mirsym.dump_mir()
+        text = open(path).read()
+    except Exception as ex:
+        out["inconclusive"].append(f"MIR dump failed: {str(ex)[-300:]}")
+        return out
+    b = P.Bridge()
+
+    def native(n, limit, offset):
+        j = {"job": "paginate", "len": n}
+        if limit is not None:
+            j["limit"] = limit
+        if offset is not None:
+            j["offset"] = offset
+        r = b.job(j)
+        if not r.get("ok"):
+            return "error"
+        return "panic" if r.get("panic") else r["rows"]
+    try:
+        res = mirsym.check_apply_pagination(text, native)
+    except Exception as ex:
+        out["inconclusive"].append(f"MIR executor cannot handle apply_pagination as compiled now: {ex}")
+        b.close()
+        return out
+    b.close()
+    for i, name, got in res["violations"]:
+        key = "apply_pagination:" + name.split(" ")[0] + "-" + name.split(" ")[1]
+        path = os.path.join(vc.REPLAY, f"{prop}-apply_pagination.json")
+        vc.ensure_dirs()
+        with open(path, "w") as f:
+            json.dump({"property": prop, "engine": "M", "function": "apply_pagination", "inputs": i,
+                       "native_result": got, "obligation": name}, f, indent=1)
+        fnd = vc.open_finding_for(prop, key)
+        if fnd:
+            out["known"].append(f"key={key} {fnd['what']}")
+        else:
+            out["violations"].append((path, f"apply_pagination({i}) -> {got}: {name} (key={key})"))
+    out["inconclusive"].extend(res["inconclusive"])
+    out["evidence"] = {"function": res["function"], "mir_blocks": res["blocks"], "paths": res["paths"],
+                       "obligations": res["results"], "translator_validated_on_native_runs": res["translator_validated_on"],
+                       "queries": res["queries"], "solver_s": res["solver_s"], "mir_dump_s": round(secs, 1),
+                       "bounds": "none on the row count, limit or offset (sequences are views into the input); library calls "
+                                 "(Option::unwrap_or, Vec::len/new, Index<RangeFrom>, slice::iter/to_vec, Iterator::take/"
+                                 "cloned/collect) are modelled by their documented contract",
+                       "regenerated_from": "cargo +nightly check with -Zunpretty=mir on /repo's working tree"}
+    return out
+
+
 def run_property(prop, tier):
     spec = SPECS[prop]
     t0 = time.time()
     r = run_harnesses(prop, spec, tier)
+    mir = None
+    if prop == "C35":
+        mir = run_mir_pagination(prop)
+        r["violations"].extend(mir["violations"])
+        r["known"].extend(mir["known"])
+        r["inconclusive"].extend(mir["inconclusive"])
     wall = time.time() - t0
     cov = {
         "evaluations": len(r["samples"]),
@@ -97,5 +159,7 @@ def run_property(prop, tier):
         "known_findings_suppressed": r["known"],
         "inconclusive": r["inconclusive"],
     }
+    if mir is not None:
+        cov["mir_symbolic_execution"] = mir["evidence"]
     vc.write_evidence(prop, tier, "model_checking", cov, spec["assumptions"], wall, len(r["violations"]))
     return vc.finish(prop, r["violations"], r["known"], r["inconclusive"])
